@@ -181,6 +181,24 @@ theorem WPc.timedOnly_postReg {c : WPc} (h : c.timedOnly = true) : c.postReg = t
 attribute [grind →] WPc.resetting_holds WPc.resetting_timedOnly WPc.holds_postReg WPc.postReg_inCall WPc.early_inCall
   WPc.early_preTimeout WPc.early_not_holds WPc.preTimeout_inCall WPc.preTimeout_not_resetting WPc.timedOnly_postReg
 
+/-! The auxiliary (matcher) lemmas `grind` derives for these definitions are generated here once, so that the modules
+    that import this file do not each generate their own copy. -/
+theorem regBound_reg {s : State} {i : Nat} (h : s.wpc = .reg i) : regBound s = i := by grind
+theorem regBound_regCas {s : State} {i : Nat} (h : s.wpc = .regCas i) : regBound s = i := by grind
+theorem regBound_sub1 {s : State} (h : s.wpc = .sub1) : regBound s = s.hi := by grind
+theorem rstBound_rst {s : State} {i : Nat} (h : s.wpc = .rst i) : rstBound s = i := by grind
+theorem rstBound_rstCas {s : State} {i : Nat} {x : Word} (h : s.wpc = .rstCas i x) : rstBound s = i := by grind
+theorem rstBound_sub2 {s : State} (h : s.wpc = .sub2) : rstBound s = s.hi := by grind
+theorem rstBound_idle {s : State} (h : s.wpc = .idle) : rstBound s = s.lo := by grind
+theorem phases_aux {s : State} {f : Bool} (h : s.wpc = .held f) :
+    s.wpc.inCall = true ∧ s.wpc.holds = true ∧ s.wpc.postReg = true ∧ s.wpc.early = false ∧ s.wpc.resetting = false ∧
+    (f = false → s.wpc.preTimeout = true ∧ s.wpc.timedOnly = true) := by
+  cases f <;> grind
+theorem phases_aux2 {s : State} (h : s.wpc = .idle) :
+    s.wpc.inCall = false ∧ s.wpc.holds = false ∧ s.wpc.postReg = false ∧ s.wpc.early = false ∧ s.wpc.resetting = false ∧
+    s.wpc.preTimeout = false ∧ s.wpc.timedOnly = false := by
+  grind
+
 /-- the tactic that closes one field of the invariant after the effect has been unfolded -/
 macro "inv_close" : tactic => `(tactic| first | assumption | grind)
 
